@@ -4,6 +4,7 @@ import (
 	"bytes"
 	"encoding/json"
 	"fmt"
+	"strings"
 
 	"ionsim/drive"
 	"ionsim/model"
@@ -112,7 +113,35 @@ func (s chunkfault) largeValues(c *Ctx, r *prng.Rand, text bool) {
 	}
 	var data []byte
 	if text {
-		data = render.Text(render.Values(vals), render.TextOpts{}).Bytes
+		// spellings that put escapes, quote runs, comment terminators and base64 groups at the places where the 4096-byte
+		// buffer refills: escapes and quotes inside the long value, long strings in segments, a block and a line
+		// comment longer than the buffer in front of it
+		if big.Kind == model.String || big.Kind == model.Clob {
+			alphabet := []string{"a", "b", "'", "\"", "\\", "\n", "''", "é", "😀", "*/", "//", "{{", "}}", "\t", " "}
+			if big.Kind == model.Clob {
+				alphabet = []string{"a", "b", "'", "\"", "\\", "\n", "''", "*/", "//", "}}", "\x01", " "}
+			}
+			var sb strings.Builder
+			for sb.Len() < n {
+				sb.WriteString(alphabet[r.Intn(len(alphabet))])
+			}
+			if big.Kind == model.String {
+				big.Str = sb.String()
+			} else {
+				big.Bytes = []byte(sb.String())
+			}
+		}
+		o := render.SwarmText(r.Fork())
+		o.LongStr, o.Escapes, o.LobWS = r.Bool(), true, r.Bool()
+		body := render.Text(render.Values(vals), o).Bytes
+		var pre []byte
+		if r.Bool() {
+			pre = append(pre, []byte("/*"+strings.Repeat("* /'''\"", r.Range(600, 1500))+"*/ ")...)
+		}
+		if r.Bool() {
+			pre = append(pre, []byte("//"+strings.Repeat("*/ \\ ' ", r.Range(600, 1500))+"\n")...)
+		}
+		data = append(pre, body...)
 	} else {
 		data = render.Binary(render.Values(vals), render.BinOpts{Auto: true}).Bytes
 	}
